@@ -102,7 +102,7 @@ func init() {
 	}
 	c3b := "two connections x one command each (all 81 ordered pairs of set add replace append prepend delete touch gat get), connection B on the main port (Locked(L1L2)) or on the batch port (LockedWithExisting(L1L2Batch), same lock set), single- and multi-reader locks; shared L1/L2 model stores in an arbitrary valid state; every interleaving at key-lock operations and backend calls; values, flags, TTLs symbolic; "
 	c3t := []Job{}
-	for k := int64(0); k < 9; k++ {
+	for _, k := range []int64{0, 5, 7, 8} { // set, delete, gat, get
 		c3t = append(c3t, conc3("two-keys-two-stripes-a"+itoa(k), map[string]int64{"nk": 2, "concurrency": 1, "a.cmd": k}, c3b+"2 keys, 2 lock stripes (same and different stripes), first connection's command fixed per job"))
 	}
 	c3t = append(c3t, conc3("multi-get-vs-set-one-stripe", map[string]int64{"nk": 2, "concurrency": 0, "getkeys": 2, "a.cmd": 8, "a.nkeys": 1, "a.getkey0": 0, "a.getkey1": 1, "a.getquiet": 0, "b.key": 1, "b.cmd": 0}, c3b+"A: get of keys 0 and 1, B: set of key 1; one lock stripe; per-key linearization"))
